@@ -369,6 +369,37 @@ def run_replace_list(case, ctx):
         ctx.mark_nontrivial(case)
 
 
+def run_split_flags(case, ctx):
+    """split() with its dedup flag given as a CONTAINER of flags shaped like the text structure: a companion like any other, matched element by element"""
+    import pyg_base as pb
+    x = codec.dec(case['x'])
+    flags = codec.dec(case['flags'])
+
+    def leaf(text, sep=' ', dedup=False):
+        if type(text) is str:
+            res = text.split(sep)
+            return [w for w in res if w] if dedup else res
+        return text
+    s0, f0 = snap(x), snap(flags)
+    if case.get('pos'):
+        exp = lift_model(case['x'], x, [' ', flags], {}, leaf)
+        st, got = ctx.call(pb.split, x, ' ', flags)
+    else:
+        exp = lift_model(case['x'], x, [], {'sep': ' ', 'dedup': flags}, leaf)
+        st, got = ctx.call(pb.split, x, sep=' ', dedup=flags)
+    ctx.check('lib_helpers_leaf_oracle', st == 'ok' and exact(got, exp), lambda: 'split(%r, " ", dedup = %r) = %s %r, flag by flag it should be %r' % (case['x'], case['flags'], st, got, exp))
+    ctx.check('operands_unchanged', snap_same(snap(x), s0) and snap_same(snap(flags), f0), lambda: 'split modified an argument')
+    ctx.cls('helpers:split_with_a_container_of_flags')
+    ctx.mark_nontrivial(case)
+
+
+def mirror_flags(t, rng):
+    ks, cs = children(t)
+    if ks is None:
+        return rng.random() < 0.5
+    return rebuild(t, [mirror_flags(c, rng) for c in cs])
+
+
 # ------------------------------------------------------------------ zipper / lens / as_list
 def run_zip(case, ctx):
     import numpy as np
@@ -437,6 +468,10 @@ def run_waiter(case, ctx):
     struct_t = case['struct']     # term with {'$aw': i, 'form': ...} leaves
     order = case['order']
     k = len(order)
+    resvals = case.get('resvals')         # what each awaitable resolves to: any value at all, None and other falsy ones included
+
+    def rv(i):
+        return ('v%d' % i) if not resvals else {'none': None, 'zero': 0, 'empty': '', 'false': False, 'list': [i], 'v': 'v%d' % i}[resvals[i % len(resvals)]]
     loop = asyncio.new_event_loop()
     completed = []
     try:
@@ -453,9 +488,9 @@ def run_waiter(case, ctx):
                 await events[pred[i]].wait()
             await asyncio.sleep(0)
             if not futs[i].done():
-                futs[i].set_result('v%d' % i)
+                futs[i].set_result(rv(i))
             events[i].set()
-            return 'v%d' % i
+            return rv(i)
 
         async def via_coro(i):
             v = await futs[i]
@@ -499,7 +534,7 @@ def run_waiter(case, ctx):
 
         def expect(t):
             if isinstance(t, dict) and '$aw' in t:
-                return 'v%d' % t['$aw']
+                return rv(t['$aw'])
             ks, cs = children(t)
             if ks is None:
                 return t
@@ -523,7 +558,7 @@ def run_waiter(case, ctx):
             for i in order:
                 await asyncio.sleep(0)
                 await asyncio.sleep(0)
-                futs[i].set_result('v%d' % i)
+                futs[i].set_result(rv(i))
 
         async def main():
             structure = build(struct_t)
@@ -595,7 +630,7 @@ def run_axis(case, ctx):
 def run_case(case, ctx):
     if case['kind'] == 'axis':
         return run_axis(case, ctx)
-    return {'lift': run_lift, 'helpers': run_helpers, 'zip': run_zip, 'waiter': run_waiter, 'replace_list': run_replace_list}[case['kind']](case, ctx)
+    return {'lift': run_lift, 'helpers': run_helpers, 'zip': run_zip, 'waiter': run_waiter, 'replace_list': run_replace_list, 'split_flags': run_split_flags}[case['kind']](case, ctx)
 
 
 def plan(tier, seed, n):
@@ -620,6 +655,13 @@ def run(spec, ctx):
                 case = {'kind': 'replace_list', 'x': gen_shape(rng, 0, tl, rng.randint(0, 3)), 'old': rng.sample(['-', '::', '.', 'ab', ' ', 'a.b', '--'], rng.randint(2, 3)), 'new': rng.choice([None, '', '_', '+']), 'pos': rng.random() < 0.5}
         else:
             case = gen_zip_case(rng)
+            if rng.random() < 0.12:
+                tl = lambda: rng.choice(['a  b', 'c d', ' x', 'p   q r', 'one', '', 1, None, 'u  v  w'])
+                xs_ = gen_shape(rng, 0, tl, rng.randint(1, 3))
+                fl_ = mirror_flags(xs_, rng)
+                if rng.random() < 0.3 and isinstance(xs_, list):
+                    fl_ = [rng.random() < 0.5 for _ in xs_]        # flags for the top level only: each one is broadcast below
+                case = {'kind': 'split_flags', 'x': xs_, 'flags': fl_, 'pos': rng.random() < 0.5}
         ctx.case(case)
         ctx.run_case(case, run_case)
         if ctx.full():
@@ -648,10 +690,15 @@ def run(spec, ctx):
             orders = rng.sample(orders, spec['cap'])
         else:
             ctx.cls('waiter:structures_all_orders')
+        resvals = [rng.choice(['none', 'zero', 'empty', 'false', 'list', 'v', 'none']) for _ in range(max(k, 1))] if i % 2 == 0 else None
         for order in orders:
             case = {'kind': 'waiter', 'struct': s, 'order': list(order)}
+            if resvals:
+                case['resvals'] = resvals
             if chained_struct is not None:
                 case = {'kind': 'waiter', 'struct': chained_struct, 'order': list(order), 'chained': True}
+                if resvals:
+                    case['resvals'] = resvals
             elif i % 3 == 1 and "'coro'" not in repr(s):       # futures, tasks and custom awaitables may be awaited from several places
                 case['alias'] = 'dict' if i % 2 else 'list'
             ctx.case(case)
